@@ -8,3 +8,4 @@ import Fir.Props.C15
 #print axioms Fir.C15.fitF_origin
 #print axioms Fir.C15.fitF_centering_zero
 #print axioms Fir.C15.fit_source_as_modelled
+#print axioms Fir.C15.fitF_origin_ieee
